@@ -87,7 +87,7 @@ type modelSession struct {
 	deadline time.Time
 }
 
-var valRe = regexp.MustCompile(`#x[0-9a-fA-F]+|#b[01]+|\btrue\b|\bfalse\b`)
+var valRe = regexp.MustCompile(`#x[0-9a-fA-F]+|#b[01]+|\btrue\b|\bfalse\b|\(- [0-9]+\)|[0-9]+`)
 
 func newModelSession(ctx *Ctx, script string) (*modelSession, error) {
 	base := strings.Replace(script, "(check-sat)\n", "", 1)
@@ -313,6 +313,13 @@ func parseSMTValue(v string) (uint64, error) {
 		return strconv.ParseUint(v[2:], 16, 64)
 	case strings.HasPrefix(v, "#b"):
 		return strconv.ParseUint(v[2:], 2, 64)
+	case strings.HasPrefix(v, "(- "):
+		n, err := strconv.ParseUint(strings.TrimSuffix(v[3:], ")"), 10, 64)
+		return uint64(-int64(n)), err
+	default:
+		if n, err := strconv.ParseUint(v, 10, 64); err == nil {
+			return n, nil
+		}
 	}
 	return 0, fmt.Errorf("bad value %q", v)
 }
